@@ -9,6 +9,7 @@ package main
 
 import (
 	"fmt"
+	"go/constant"
 	"go/token"
 	"sort"
 	"strings"
@@ -173,6 +174,21 @@ func ruleSFund(c *Ctx) {
 			guardOK = guardOK || !dc.truth
 		}
 	}
+	// ... or by a boolean the same estimate returns with it, where estimateDeficit's own paths show that it
+	// is true exactly when the deficit is zero
+	coveredIdx := -1
+	if ex, ok := deficit.(*ssa.Extract); ok {
+		if call, ok := ex.Tuple.(*ssa.Call); ok {
+			for _, dc := range dominatingConds(nc.Block()) {
+				if ex2, ok := dc.cond.(*ssa.Extract); ok && ex2.Tuple == ssa.Value(call) && ex2.Index != 0 && isBoolType(ex2.Type()) && !dc.truth {
+					if boolResultMeansZero(call.Call.StaticCallee(), ex2.Index) {
+						guardOK = true
+						coveredIdx = ex2.Index
+					}
+				}
+			}
+		}
+	}
 	c.Check(guardOK, "S-fund", "supplier/only-while-deficit", nc.Pos(), "the supplier call is dominated by the test deficit != 0 on the value it is given", "the supplier can be called although no deficit remains (its call is not guarded by a test of the deficit it is given)")
 	// the estimate is fresh: on every path the last funding event before the supplier call is
 	// estimateDeficit, the last one before FromUTXOs is the supplier call (forward must-analysis over the
@@ -302,6 +318,9 @@ func ruleSFund(c *Ctx) {
 				a, flip := canonAtom(atomName(pc.Cond))
 				if strings.Contains(a, "estimateDeficit(p0, p2)#0 == 0)") && pc.Truth != flip {
 					zero = true
+				}
+				if coveredIdx > 0 && a == fmt.Sprintf("(*bt.Tx).estimateDeficit(p0, p2)#%d", coveredIdx) && pc.Truth {
+					zero = true // the estimate's own verdict, equivalent to a zero deficit (see only-while-deficit)
 				}
 			}
 			if !zero {
@@ -549,4 +568,51 @@ func ruleGDeficit(c *Ctx) {
 	}
 	c.Check(same, "G-lin", "Tx.estimateDeficit", fn.Pos(), "deficit = 0 when IN > OUT+FEE, else OUT+FEE-IN (non-negative under its guard): "+strings.Join(keysSorted(got), " | "),
 		fmt.Sprintf("estimateDeficit's result changed: {%s}, specified {%s}", strings.Join(keysSorted(got), " | "), strings.Join(keysSorted(want), " | ")))
+}
+
+// boolResultMeansZero: on every success path of fn (estimateDeficit) the boolean result #k is a constant, true
+// only together with result #0 == 0 and false only under a condition that makes result #0 at least 1.
+func boolResultMeansZero(fn *ssa.Function, k int) bool {
+	if fn == nil {
+		return false
+	}
+	paths, err := feasiblePaths(fn, 2000)
+	if err != nil {
+		return false
+	}
+	n := 0
+	for _, d := range paths {
+		if returnDesc(d) != "return nil" {
+			continue
+		}
+		if d.Ret == nil || k >= len(d.Ret.Results) {
+			return false
+		}
+		n++
+		bt := d.Env.Term(d.Ret.Results[k])
+		if bt.K != "const" || bt.C == nil || bt.C.Kind() != constant.Bool {
+			return false
+		}
+		r := linOf(d.Env.Term(d.Ret.Results[0]), nil)
+		if constant.BoolVal(bt.C) {
+			if !r.isConst() || r.Const.Sign() != 0 {
+				return false
+			}
+			continue
+		}
+		// false: some condition of the path is  r - 1 >= 0
+		want := newTLin()
+		want.Const.SetInt64(-1)
+		want = want.add(r, 1)
+		found := false
+		for _, pc := range d.Conds {
+			if s, ok := cmpNorm(pc.Cond, pc.Truth, nil); ok && s == want.String()+" >= 0" {
+				found = true
+			}
+		}
+		if !found {
+			return false
+		}
+	}
+	return n > 0
 }
